@@ -291,7 +291,7 @@ pub fn run_case(case: &Case) -> CaseResult {
 				sample_rate: case.sound_rate,
 				signal: Signal::Dc(0.0),
 			},
-			case.slice,
+			None,
 			&SoundSettingsSpec {
 				start_position: Pos::Samples(case.start),
 				loop_region: case.looped.map(|(a, b)| RegionSpec {
@@ -305,7 +305,8 @@ pub fn run_case(case: &Case) -> CaseResult {
 			&NoResolver,
 		)
 	};
-	let built = monitor::catch(move || data.into_sound());
+	let slice = case.slice;
+	let built = monitor::catch(move || crate::world::apply_slice(data, slice).into_sound());
 	let (mut sound, mut handle) = match built {
 		Ok(Ok(x)) => x,
 		_ => {
